@@ -128,20 +128,27 @@ structure Seg where
   len : Nat
 deriving Repr, DecidableEq
 
+/-- a piece, unless it is empty -/
+def optSeg (slot : Option Nat) (off len : Nat) : List Seg := if len > 0 then [⟨slot, off, len⟩] else []
+
+/-- `if (s->off > off) len = MIN(wp, s->off - off)`: the part in front of the window, through the file -/
+def preLen (s : Slot) (off n : Nat) : Nat := if s.off > off then min n (s.off - off) else 0
+
+/-- `if (wp > 0 && s->off <= off && s->off + s->len > off) len = MIN(wp, s->off + s->len - off)`: the part inside the window -/
+def midLen (s : Slot) (off n : Nat) : Nat :=
+  if n > 0 ∧ s.off ≤ off ∧ off < s.off + s.len then min n (s.off + s.len - off) else 0
+
 /-- the `while (s && wp > 0)` loop followed by the `if (wp > 0)` tail, as a list of pieces.
     `k` numbers the windows from the head of the list. -/
 def segs : List Slot → Nat → Nat → Nat → List Seg
-  | [], _, off, n => if n > 0 then [⟨none, off, n⟩] else []
+  | [], _, off, n => optSeg none off n
   | s :: rest, k, off, n =>
     if n = 0 then []
     else if s.len = 0 ∨ off + n ≤ s.off then [⟨none, off, n⟩]
     else
-      let l1 := if s.off > off then min n (s.off - off) else 0
-      let off1 := off + l1
-      let n1 := n - l1
-      let l2 := if n1 > 0 ∧ s.off ≤ off1 ∧ off1 < s.off + s.len then min n1 (s.off + s.len - off1) else 0
-      (if l1 > 0 then [⟨none, off, l1⟩] else []) ++ (if l2 > 0 then [⟨some k, off1, l2⟩] else [])
-        ++ segs rest (k + 1) (off1 + l2) (n1 - l2)
+      let l1 := preLen s off n
+      let l2 := midLen s (off + l1) (n - l1)
+      optSeg none off l1 ++ optSeg (some k) (off + l1) l2 ++ segs rest (k + 1) (off + l1 + l2) (n - l1 - l2)
 
 /-- read one piece -/
 def readSeg (ps : Nat) (file : Bytes) (slots : List Slot) (g : Seg) : Bytes :=
